@@ -565,6 +565,10 @@ func hasBaseType(typeExpr ast.Constant, c ast.Constant) bool {
 		return c.Type == ast.TimeType
 	case ast.DurationBound:
 		return c.Type == ast.DurationType
+	case ast.BytesBound:
+		return c.Type == ast.BytesType
+	case ast.BotBound:
+		return false // /bot has no elements.
 	default:
 		return typeExpr.Type == ast.NameType && c.Type == ast.NameType && strings.HasPrefix(c.Symbol, typeExpr.Symbol+"/")
 	}
